@@ -104,7 +104,10 @@ Lemma date_negative_minutes_refuted :
   exists secs offset s,
     Z.rem offset 60 = 0 /\ format_patch_date secs offset = Some s /\
     parse_patch_date s = Some (secs - 3600, offset + 3600).
-Proof. exists 1000000, (-12600). eexists. split; [reflexivity|]. split; vm_compute; reflexivity. Qed.
+Proof.
+  exists 1000000, (-12600), (asc "1970-01-12 10:16:40 -0330").
+  split; [reflexivity|]. split; vm_compute; reflexivity.
+Qed.
 
 Example date_ok_example : date_ok 1700000000 19800 = true /\ date_ok 1700000000 (-18000) = true.
 Proof. split; reflexivity. Qed.
